@@ -521,7 +521,9 @@ func stripSched(names []string) []string {
 
 // c10oversize: requests the framing layer cannot carry must fail as errors of that call and leave the environment usable.
 func c10oversize(x *mc.X) {
-	kind := x.Pick("oversize", "execve-env-40k", "open-300-paths", "symlink-long-target")
+	// … and so must requests whose descriptor list the kernel refuses to pass (a number that is not open, the close marker
+	// -1 of the fork/exec layer, more descriptors than one message may carry): nothing was sent, only that call fails
+	kind := x.Pick("oversize", "execve-env-40k", "open-300-paths", "symlink-long-target", "execve-closed-descriptor", "execve-descriptor-minus-one", "execve-254-descriptors", "execve-253-descriptors")
 	x.Note("script", []string{kind})
 	if x.Dry() {
 		return
@@ -540,6 +542,34 @@ func c10oversize(x *mc.X) {
 			p.Env = []string{"BIG=" + strings.Repeat("x", 40<<10)}
 			res := c.Execve(context.Background(), p)
 			said = fmt.Sprintf("%s %q", statusName(res.Status), res.Error)
+		case "execve-closed-descriptor", "execve-descriptor-minus-one", "execve-254-descriptors", "execve-253-descriptors":
+			p := execveParam([]string{"/probe/burn", "exit", "0"})
+			switch kind {
+			case "execve-closed-descriptor":
+				// a number that is certainly not open: the highest one the process may have
+				var rl unix.Rlimit
+				unix.Getrlimit(unix.RLIMIT_NOFILE, &rl)
+				p.Files = append(p.Files, uintptr(rl.Cur-1))
+			case "execve-descriptor-minus-one":
+				p.Files = append(p.Files, ^uintptr(0))
+			case "execve-254-descriptors":
+				for len(p.Files) < 254 {
+					p.Files = append(p.Files, p.Files[0])
+				}
+			case "execve-253-descriptors":
+				// the largest list one message carries: must simply work
+				for len(p.Files) < 253 {
+					p.Files = append(p.Files, p.Files[0])
+				}
+			}
+			res := c.Execve(context.Background(), p)
+			said = fmt.Sprintf("%s %q", statusName(res.Status), res.Error)
+			if kind == "execve-253-descriptors" && res.Status != runner.StatusNormal {
+				x.Failf("C10/oversize/largest-legal-request-failed/"+kind, "Execve with 253 descriptors (the most one message carries) answered %s", said)
+			}
+			if kind != "execve-253-descriptors" && res.Status == runner.StatusNormal {
+				x.Failf("C10/oversize/impossible-request-succeeded/"+kind, "%s answered %s", kind, said)
+			}
 		case "open-300-paths":
 			var cmds []container.OpenCmd
 			for i := 0; i < 300; i++ {
